@@ -382,6 +382,8 @@ class CircuitSerializer(serializer.Serializer):
             if has_two_pulse_tag:
                 msg.fsimgate.translate_to_two_pulse = True
         elif isinstance(gate, cirq.MeasurementGate):
+            if gate.confusion_map:
+                raise ValueError(f'Cannot serialize measurement with a confusion_map: {op!r}')
             arg_func_langs.arg_to_proto(gate.key, out=msg.measurementgate.key)
             if len(gate.invert_mask):
                 # Do not serialize empty invert mask until servers support empty tuples
